@@ -13,12 +13,16 @@ use std::time::Duration;
 pub const HANG_LIMIT_S: f64 = 5.0;
 
 thread_local! { static PANIC_MSG: RefCell<Option<String>> = RefCell::new(None); }
+pub static LAST_PANIC: Mutex<Option<String>> = Mutex::new(None);
 
 pub fn install_quiet_hook() {
     std::panic::set_hook(Box::new(|info| {
         let loc = info.location().map(|l| format!("{}:{}", l.file(), l.line())).unwrap_or_default();
         let msg = info.payload().downcast_ref::<&str>().map(|s| s.to_string()).or_else(|| info.payload().downcast_ref::<String>().cloned()).unwrap_or_default();
         PANIC_MSG.with(|m| *m.borrow_mut() = Some(format!("{} at {}", msg, loc)));
+        if let Ok(mut g) = LAST_PANIC.lock() {
+            *g = Some(format!("{} at {}", msg, loc));
+        }
     }));
 }
 pub fn take_panic_msg() -> String {
